@@ -274,6 +274,11 @@ Definition I_args (a : args) : Prop := forall G al,
   NoDup (nids_args a) -> hits (oc_args OOther a) -> interp_args md GE G a = Ok al ->
   (forall x, In x al -> snd x <> []) ->
   interp_args md GE G (om_args zo a) = Bad s c.
+Lemma args_has_pos_om : forall a, args_has_pos (om_args zo a) = args_has_pos a.
+Proof.
+  induction a as [|ch e r IH]; [reflexivity|].
+  autorewrite with omeq. destruct ch; cbn [om_choice args_has_pos]; try reflexivity; exact IH.
+Qed.
 Definition F_args (a : args) : Prop := forall G i all fs v,
   NoDup (nids_args a) -> hits (oc_args OField a) -> root_fields md GE G i all fs a = Ok v ->
   root_fields md GE G i all fs (om_args zo a) = Bad s c.
@@ -386,7 +391,7 @@ Proof.
       * erewrite IHe; [reflexivity | eassumption ..|]. apply (Hne (ch, a)). left; reflexivity.
       * unch. okrw. erewrite IHa; [reflexivity | eassumption ..|]. intros x Hx. apply Hne. right; exact Hx.
     + intros G i all fs v Hnd Hh H. cbn [nids_args oc_args] in *. autorewrite with omeq in *. nd.
-      destruct ch as [|f|]; cbn [om_choice nids_choice] in *; autorewrite with chkeq in *; try discriminate H.
+      destruct ch as [|f|]; cbn [om_choice nids_choice] in *; autorewrite with chkeq in *; rewrite ?args_has_pos_om in *; try discriminate H.
       * destruct fs as [|ft fs']; [discriminate H|]. minv H. hit_cases Hh.
         -- erewrite IHr; [reflexivity | eassumption ..].
         -- unch. okrw. erewrite IHf; [reflexivity | eassumption ..].
@@ -394,6 +399,10 @@ Proof.
         -- hit_occ Hh0. rewrite (zo_hit s f Hn). rewrite find_field_zap. rewrite <- Hc. reflexivity.
         -- unch. rewrite Ef. okrw. erewrite IHr; [reflexivity | eassumption ..].
         -- unch. rewrite Ef. okrw. erewrite IHf; [reflexivity | eassumption ..].
+      * destruct r as [|c' e' r']; autorewrite with omeq chkeq in *; [|discriminate H].
+        destruct fs as [|ft fs']; [discriminate H|].
+        destruct (forallb (fun y => sty_eqb (snd y) (snd ft)) fs'); cbn [guard bind] in *; [|discriminate H].
+        hit_cases Hh; [eapply IHr; eassumption | exfalso; exact (hit_nil _ _ Hh)].
     + intros G i el n v Hnd Hh H. cbn [nids_args oc_args] in *. autorewrite with omeq in *. nd.
       destruct ch as [|f|]; cbn [om_choice nids_choice] in *.
       * autorewrite with chkeq in *. destruct n as [|n']; [discriminate H|]. minv H. hit_cases Hh.
